@@ -9,7 +9,7 @@ namespace {
 using namespace BaseGraph;
 
 struct Counters {
-    uint64_t bigFiles = 0, bigTruncFiles = 0, largeIndexGraphs = 0, roundTrips = 0, bytesCompared = 0, handmade = 0, openFailures = 0, labelReads = 0, truncFiles = 0, truncCuts = 0, cutsInsideRecord = 0, cutsAtBoundary = 0,
+    uint64_t secondRoundTrips = 0, bigFiles = 0, bigTruncFiles = 0, largeIndexGraphs = 0, roundTrips = 0, bytesCompared = 0, handmade = 0, openFailures = 0, labelReads = 0, truncFiles = 0, truncCuts = 0, cutsInsideRecord = 0, cutsAtBoundary = 0,
              truncThrew = 0, truncReturned = 0, zeroVertexGraphs = 0, noEdgeGraphs = 0;
     ObsCounters oc;
 } C;
@@ -182,7 +182,16 @@ template <template <class...> class GT, class L> void binary(Reporter &R, uint64
             return;
         }
         std::string err = compareLoaded<GT<L>, L>(loaded, s, labels, &g);
-        if (!err.empty()) R.violation(cls + (handmade ? "/binary-hand-made-file/" : "/binary-round-trip/") + err.substr(0, err.find_first_of(":(")), err + "; graph " + s.str() + " file " + hexOf(bytes));
+        if (!err.empty()) { R.violation(cls + (handmade ? "/binary-hand-made-file/" : "/binary-round-trip/") + err.substr(0, err.find_first_of(":(")), err + "; graph " + s.str() + " file " + hexOf(bytes)); return; }
+        if (sub % 3 == 0) {
+            // a loaded graph is a graph: writing it and loading it again must round-trip as well
+            io::writeBinaryEdgeList(loaded, path);
+            GT<L> loaded2 = loadBin<GT, L>(path);
+            unlink(path.c_str());
+            ++C.secondRoundTrips;
+            err = compareLoaded<GT<L>, L>(loaded2, s, labels, &g);
+            if (!err.empty()) R.violation(cls + "/binary-round-trip-of-a-loaded-graph/" + err.substr(0, err.find_first_of(":(")), err + "; graph " + s.str());
+        }
     } catch (std::exception &ex) {
         unlink(path.c_str());
         R.violation(cls + "/binary-round-trip/threw", std::string("threw ") + ex.what() + "; graph " + s.str());
@@ -375,6 +384,7 @@ template <template <class...> class GT, class L> void truncate(Reporter &R, uint
 void flush(Reporter &R) {
     C.oc.flush(R);
     R.count("binary_round_trips", C.roundTrips);
+    R.count("round_trips_of_a_loaded_graph", C.secondRoundTrips);
     R.count("graphs_with_large_vertex_indices", C.largeIndexGraphs);
     R.count("files_of_tens_of_kilobytes_round_tripped", C.bigFiles);
     R.count("files_of_tens_of_kilobytes_truncated_around_buffer_boundaries", C.bigTruncFiles);
